@@ -1,0 +1,247 @@
+//! Verification hooks for `cluster/worker.rs` (compiled only with `--cfg scylla_verif`).
+//!
+//! Spawns the REAL `ClusterWorker::work()` fed by a real merge channel. Every node is rejected by
+//! the host filter (pool-less nodes), so nothing touches the network. The rig plays the metadata
+//! worker: it calls the `MetadataUpdate::merge_*` constructors through `Sender::modify` and reads
+//! the published `ClusterState`. Contains no driver logic of its own.
+
+use super::*;
+use crate::client::client_routes::ClientRoutesProxy;
+use crate::cluster::metadata::update::ClientRoutesUpdate;
+use crate::cluster::metadata::{ClientRoute, ClientRoutes, Metadata, Peer};
+use crate::cluster::node::NodeAddr;
+use crate::routing::Token;
+use std::net::SocketAddr;
+use tokio::sync::oneshot;
+
+struct RejectAll;
+impl HostFilter for RejectAll {
+    fn accept(&self, _peer: &Peer) -> bool {
+        false
+    }
+}
+
+/// A one-node topology identified by `tag` (host id = tag).
+fn peers_for(tag: u64) -> Vec<Peer> {
+    vec![Peer {
+        host_id: Uuid::from_u128(tag as u128),
+        address: NodeAddr::Translatable(SocketAddr::from((
+            [127, 1, (tag >> 8) as u8, tag as u8],
+            9042,
+        ))),
+        tokens: vec![Token::new(tag as i64)],
+        datacenter: None,
+        rack: None,
+    }]
+}
+
+fn route_for(host: u64, conn: u16, port: u16) -> ClientRoute {
+    ClientRoute {
+        connection_id: conn.to_string(),
+        host_id: Uuid::from_u128(host as u128),
+        hostname: "127.0.0.1".to_owned(),
+        port: Some(port),
+        tls_port: None,
+    }
+}
+
+pub struct WorkerRig {
+    updates: merge_channel::Sender<MetadataUpdate>,
+    state: Arc<ArcSwap<ClusterState>>,
+    receivers: Vec<(u64, oneshot::Receiver<Result<(), MetadataError>>)>,
+    next_refresh: u64,
+    _worker: RemoteHandle<()>,
+    _tablets: tokio::sync::mpsc::Sender<(TableSpec<'static>, RawTablet)>,
+    _use_keyspace: tokio::sync::mpsc::Sender<UseKeyspaceRequest>,
+}
+
+impl WorkerRig {
+    /// Builds an initial `ClusterState` with topology `initial_tag` and spawns
+    /// `ClusterWorker::work()` on the current tokio runtime. `with_subscriber`: a
+    /// `ClientRoutesAddressTranslator` (connection ids "1" and "2") is the client-routes subscriber.
+    pub async fn spawn(initial_tag: u64, with_subscriber: bool) -> WorkerRig {
+        let (use_keyspace_sender, use_keyspace_receiver) = tokio::sync::mpsc::channel(32);
+        let (connectivity_events_sender, connectivity_events_receiver) =
+            tokio::sync::mpsc::unbounded_channel();
+        let (tablet_sender, tablet_receiver) = tokio::sync::mpsc::channel(TABLET_CHANNEL_SIZE);
+
+        let client_routes_subscriber: Option<Arc<dyn ClientRoutesSubscriber>> = with_subscriber
+            .then(|| {
+                let config = ClientRoutesConfig::new(vec![
+                    ClientRoutesProxy::new_with_connection_id("1".to_owned()),
+                    ClientRoutesProxy::new_with_connection_id("2".to_owned()),
+                ])
+                .unwrap();
+                Arc::new(ClientRoutesAddressTranslator::new(config, None, false))
+                    as Arc<dyn ClientRoutesSubscriber>
+            });
+
+        let node_config = NodeConfig {
+            pool_config: PoolConfig {
+                connection_config: crate::network::connection_verif::connection_config(),
+                pool_size: Default::default(),
+                can_use_shard_aware_port: true,
+                reconnect_policy: Arc::new(
+                    crate::policies::reconnect::ExponentialReconnectPolicy::new(),
+                ),
+            },
+            used_keyspace: None,
+            connectivity_events_sender,
+            metrics: Metrics::new(),
+        };
+        let host_filter: Option<Arc<dyn HostFilter>> = Some(Arc::new(RejectAll));
+
+        let metadata = Metadata {
+            peers: peers_for(initial_tag),
+            keyspaces: HashMap::new(),
+            cluster_name: None,
+            client_routes: None,
+        };
+        let cluster_state =
+            ClusterState::new(metadata, &node_config, host_filter.as_deref()).await;
+        let cluster_state: Arc<ArcSwap<ClusterState>> =
+            Arc::new(ArcSwap::from(Arc::new(cluster_state)));
+
+        let (metadata_updates_sender, metadata_updates_receiver) = merge_channel();
+
+        let worker = ClusterWorker {
+            cluster_state: cluster_state.clone(),
+            node_status: HashMap::new(),
+            client_routes_subscriber,
+            node_config,
+            metadata_updates: metadata_updates_receiver,
+            connectivity_events_receiver,
+            tablets_channel: tablet_receiver,
+            use_keyspace_channel: use_keyspace_receiver,
+            host_filter,
+            host_listener: None,
+        };
+        let (fut, worker_handle) = worker.work().remote_handle();
+        tokio::spawn(fut);
+
+        WorkerRig {
+            updates: metadata_updates_sender,
+            state: cluster_state,
+            receivers: Vec::new(),
+            next_refresh: 0,
+            _worker: worker_handle,
+            _tablets: tablet_sender,
+            _use_keyspace: use_keyspace_sender,
+        }
+    }
+
+    /// `merge_metadata` of a full fetch with topology `tag`; `routes`: `Some` = client routes
+    /// configured, holding (host, conn, port). Returns the id of the refresh request attached.
+    pub fn merge_metadata(
+        &mut self,
+        tag: u64,
+        with_refresh: bool,
+        routes: Option<&[(u64, u16, u16)]>,
+    ) -> Result<Option<u64>, ()> {
+        let (chan, id, rx) = if with_refresh {
+            let (tx, rx) = oneshot::channel();
+            (Some(tx), Some(self.next_refresh), Some(rx))
+        } else {
+            (None, None, None)
+        };
+        let client_routes = routes.map(|routes| {
+            let mut cr = ClientRoutes::default();
+            cr.extend(routes.iter().map(|&(h, c, p)| route_for(h, c, p)));
+            cr
+        });
+        let metadata = Metadata {
+            peers: peers_for(tag),
+            keyspaces: HashMap::new(),
+            cluster_name: None,
+            client_routes,
+        };
+        self.updates
+            .modify(|slot| MetadataUpdate::merge_metadata(slot, metadata, chan))
+            .map_err(|_| ())?;
+        if let (Some(id), Some(rx)) = (id, rx) {
+            self.next_refresh += 1;
+            self.receivers.push((id, rx));
+        }
+        Ok(id)
+    }
+
+    pub fn merge_topology(&mut self, tag: u64) -> Result<(), ()> {
+        self.updates
+            .modify(|slot| MetadataUpdate::merge_topology_update(slot, peers_for(tag)))
+            .map_err(|_| ())
+    }
+
+    /// Entries (host, conn, Some(port) = upsert | None = removal).
+    pub fn merge_client_routes(&mut self, entries: &[(u64, u16, Option<u16>)]) -> Result<(), ()> {
+        let mut updates: HashMap<Uuid, HashMap<String, Option<ClientRoute>>> = HashMap::new();
+        for &(h, c, p) in entries {
+            updates
+                .entry(Uuid::from_u128(h as u128))
+                .or_default()
+                .insert(c.to_string(), p.map(|p| route_for(h, c, p)));
+        }
+        self.updates
+            .modify(|slot| {
+                MetadataUpdate::merge_client_routes_update(slot, ClientRoutesUpdate { updates })
+            })
+            .map_err(|_| ())
+    }
+
+    pub fn merge_hint(&mut self, addr_id: u16, up: bool) -> Result<(), ()> {
+        let addr = SocketAddr::from(([127, 0, 0, 1], addr_id));
+        self.updates
+            .modify(|slot| {
+                if up {
+                    MetadataUpdate::merge_up_hint(slot, addr)
+                } else {
+                    MetadataUpdate::merge_down_hint(slot, addr)
+                }
+            })
+            .map_err(|_| ())
+    }
+
+    /// Is an update waiting in the slot? (`Sender::modify` with a closure that leaves the slot
+    /// as it is.)
+    pub fn slot_full(&mut self) -> Result<bool, ()> {
+        let mut full = false;
+        self.updates
+            .modify(|slot| full = slot.is_some())
+            .map_err(|_| ())?;
+        Ok(full)
+    }
+
+    /// Host ids (low 64 bits) of `known_nodes` of the currently published state, sorted.
+    pub fn published(&self) -> Vec<u64> {
+        let mut v: Vec<u64> = self
+            .state
+            .load()
+            .known_nodes
+            .keys()
+            .map(|h| h.as_u128() as u64)
+            .collect();
+        v.sort_unstable();
+        v
+    }
+
+    /// Address of the published state object (changes whenever a new state is published).
+    pub fn published_ptr(&self) -> usize {
+        Arc::as_ptr(&self.state.load_full()) as usize
+    }
+
+    /// Refresh requests resolved since the last call: (answered Ok, answered Err, dropped
+    /// unanswered).
+    pub fn poll_refresh(&mut self) -> (Vec<u64>, Vec<u64>, Vec<u64>) {
+        let (mut ok, mut err, mut dropped) = (Vec::new(), Vec::new(), Vec::new());
+        let mut remaining = Vec::new();
+        for (id, mut rx) in std::mem::take(&mut self.receivers) {
+            match rx.try_recv() {
+                Ok(Ok(())) => ok.push(id),
+                Ok(Err(_)) => err.push(id),
+                Err(oneshot::error::TryRecvError::Closed) => dropped.push(id),
+                Err(oneshot::error::TryRecvError::Empty) => remaining.push((id, rx)),
+            }
+        }
+        self.receivers = remaining;
+        (ok, err, dropped)
+    }
+}
